@@ -15,7 +15,9 @@ REGISTRY = {
     "C05": ("bpmc.checks.c05", "C05"),
     "C06": ("bpmc.checks.c06", "C06"),
     "C07": ("bpmc.checks.c07", "C07"),
+    "C12": ("bpmc.checks.c12", "C12"),
     "C14": ("bpmc.checks.c14", "C14"),
+    "C16": ("bpmc.checks.c16", "C16"),
 }
 
 
